@@ -1,7 +1,7 @@
 /-
   C02 — the time-reversed solver returns a circuit that generates the target exactly.
 
-  Two layers.
+  Five parts.
   (1) Soundness of the *validator* that is applied to every circuit the real solver returns (translation validation by a verified
       checker): if `checkGenerates ne np ops adj` evaluates to `true`, then under EVERY combination of measurement outcomes the
       circuit, run by the tableau semantics proved in C07/C01, leaves the photons exactly in the graph state |G⟩ (signs included)
@@ -14,9 +14,14 @@
   (3) Completeness of the solver model (the theorem of Li, Economou and Barnes, for the code as written): for every simple graph on
       at least one vertex without isolated vertex — more generally every stabilizer target none of whose qubits is a product qubit —
       `solve` RETURNS (no assertion, no IndexError in any helper, in any round) and its final working tableau generates exactly the
-      group of |0…0⟩ (`solver_complete`), hence `solve_correct`: the returned circuit prepares |G⟩ ⊗ |0…0⟩ under every outcome script.
-      The only hypothesis is `hinv`: completeness of `inverse_circuit` (C11; proved on another branch, discharged at merge).
-      Graphs WITH an isolated vertex are excluded: there the code raises IndexError (finding D3), and np = 0 raises ValueError.
+      group of |0…0⟩ (`solver_complete`), hence `solve_correct`: the returned circuit prepares |G⟩ ⊗ |0…0⟩ under every outcome script,
+      and the verified validator accepts it (`validator_accepts_solver`).  Hypothesis: `InverseCircuitComplete` (C11).
+  (4) Soundness without `hfinal` (`final_tableau_is_zero`, `solve_sound_unconditional`, `solve_returns_correct`): for every real
+      commuting target, WHENEVER the model returns its final tableau generates |0…0⟩, so whatever it returns is correct.
+      Hypothesis: `InverseCircuitEndsInZero` (C11).
+  (5) The excluded targets, exactly: every graph with an isolated vertex raises IndexError (`isolated_vertex_raises`: finding D3 as a
+      theorem about the model), the empty graph raises ValueError; `solve_returns_iff`.
+  Both hypotheses are theorems of C11 on branch deep-c11 (`STab.inverseCircuit_complete`, `STab.inverseCircuit_isZero`), discharged at merge.
 -/
 import GraphiqModel.Proofs.Check
 import GraphiqModel.Proofs.Circuit
